@@ -18,6 +18,8 @@ def fnview(ctx, body, policy=True):
     key = (body.d.id, policy)
     cache = ctx.__dict__.setdefault("_fv", {})
     if key not in cache:
+        from . import anchors
+        anchors.apply(ctx.prog, body)
         cache[key] = FnView(ctx.prog, body, policy_diverges=policy)
         ctx.touch(body)
     return cache[key]
